@@ -109,6 +109,14 @@ var lazyProgs = []lazyProg{
 	{"boomb() && false", func(c, d bool) []int { return nil }, func(c, d bool) bool { return false }},
 	{"boomb() || true", func(c, d bool) []int { return nil }, func(c, d bool) bool { return false }},
 	{"if(boomb(), 1, 1)", func(c, d bool) []int { return nil }, func(c, d bool) bool { return false }},
+	// repeated literal keys: every entry is evaluated, in source order
+	{"[\"k\": t(1, a), \"k\": t(2, b)]", func(c, d bool) []int { return []int{1, 2} }, yes},
+	{"[1: t(1, a), 1.0: t(2, b), 0x1: t(3, a)]", func(c, d bool) []int { return []int{1, 2, 3} }, yes},
+	{"[true: t(1, a), (true): t(2, b)][true] + t(3, a)", func(c, d bool) []int { return []int{1, 2, 3} }, yes},
+	// a failing call on literals only, in a branch that may not be taken (a compiler that folds constants must not fail for it)
+	{"if(c, t(1, a), 7 % 0)", func(c, d bool) []int { return when(c, 1) }, func(c, d bool) bool { return c }},
+	{"c || 1 % 0 == 0", func(c, d bool) []int { return nil }, func(c, d bool) bool { return c }},
+	{"lz(c, t(1, a), 5 % (2 - 2))", func(c, d bool) []int { return when(c, 1) }, func(c, d bool) bool { return c }},
 	// a lazy call to the right of an operand that is already evaluated, inside a lazy argument
 	{"lz(c, t(1, a) + lz(d, t(2, a), t(3, b)), t(4, b))", func(c, d bool) []int { return cat(when(c, 1), when(c && d, 2), when(c && !d, 3), when(!c, 4)) }, yes},
 	{"twice(t(1, a) + twice(t(2, b)))", func(c, d bool) []int { return []int{1, 2, 2, 1, 2, 2} }, yes},
@@ -158,7 +166,7 @@ func H06_order() {
 		if shouldSucceed {
 			sv.Assert("unselected-failing-operand-never-runs:"+BackendNames[bk], class == "ok")
 		} else {
-			sv.Assert("selected-failing-operand-fails:"+BackendNames[bk], class == "panic:boom")
+			sv.Assert("selected-failing-operand-fails:"+BackendNames[bk], class == "panic:boom" || IsDivide(class))
 		}
 		same := len(tr.log) == len(want)
 		if same {
